@@ -290,13 +290,16 @@ def judge_relay(cfg, stage, how):
     if c.pop('concurrent', False):
         # two attempts at the same moment through one relay object: each is bounded by ITS OWN timeouts, a stalled peer of
         # one attempt must not make the other wait
-        c['sequential'] = False
+        c['sequential'] = bool(c.pop('one_after_the_other', False))
         w = SmtpRelayWorld(Chooser(), c).run()
         out = []
         for i, rec in enumerate(w.results):
             per, whole = classify(rec['outcome'], rec['env'])
             limit = (7.0 if stage == 'connect' else 13.0 if stage.startswith('eod') else 11.0)
-            desc = 'two concurrent attempts, relay %s, peers %s at %s: attempt %d -> %s at t=%r (limit %g)' % (
+            if cfg.get('one_after_the_other') and i > 0 and stage != 'connect':
+                limit += 11.0        # the previous client still holds the only slot while its QUIT times out: bounded, by one more command timeout
+            desc = 'two %s attempts, pool_size %r, relay %s, peers %s at %s: attempt %d -> %s at t=%r (limit %g)' % (
+                'consecutive' if cfg.get('one_after_the_other') else 'concurrent', cfg.get('pool_size'),
                 'LMTP' if cfg.get('lmtp') else 'SMTP', how, stage, i, whole, rec['end'], limit)
             base = {'side': 'relay', 'lmtp': bool(cfg.get('lmtp')), 'pipelining': True, 'concurrent': True}
             if whole == 'blocked' or rec['end'] is None:
@@ -384,6 +387,10 @@ def relay_cases(tier):
             for ps in (None, 2):
                 yield dict(lmtp=lmtp, n=1, envelopes=2, concurrent=True, pool_size=ps), st, 'stall'
                 yield dict(lmtp=lmtp, n=1, envelopes=2, concurrent=True, pool_size=ps, stagger=1.0), st, 'stall'
+    # one attempt after the other through a pool of one: what the first (timed-out) attempt leaves behind must not hold the second
+    for lmtp in (False, True):
+        for st in ('connect', 'banner', 'mail', 'eod0' if lmtp else 'eod'):
+            yield dict(lmtp=lmtp, n=1, envelopes=2, concurrent=True, one_after_the_other=True, pool_size=1), st, 'stall'
     for lmtp in (False, True):
         yield dict(lmtp=lmtp, n=1, unsolicited_partial='421 4.4.2 idl', idle_timeout=5.0, max_steps=400), 'unsolicited', 'stall'
 
